@@ -76,6 +76,7 @@ type vfWorld struct {
 	routers []*Router
 	holds   map[string]chan struct{}
 	maxIvl  time.Duration
+	maxWait time.Duration
 
 	logMu sync.Mutex
 	logs  []vfLogRec
@@ -149,6 +150,16 @@ func (w *vfWorld) noteInterval(d time.Duration) {
 	w.mu.Lock()
 	if d > w.maxIvl {
 		w.maxIvl = d
+	}
+	w.mu.Unlock()
+}
+
+// noteWait records the longest timer a request may legitimately be waiting on (max-pause), so
+// teardown can let held requests expire.
+func (w *vfWorld) noteWait(d time.Duration) {
+	w.mu.Lock()
+	if d > w.maxWait {
+		w.maxWait = d
 	}
 	w.mu.Unlock()
 }
@@ -243,7 +254,7 @@ func (w *vfWorld) close() {
 	}
 	w.net.CloseAll()
 	w.probeTransport.CloseIdleConnections()
-	time.Sleep(w.maxIvl + time.Millisecond)
+	time.Sleep(w.maxIvl + w.maxWait + time.Millisecond)
 	synctest.Wait()
 	w.wg.Wait()
 
@@ -452,7 +463,7 @@ type vfEcho struct {
 
 func (tg *vfTarget) ServeHTTP(rw http.ResponseWriter, r *http.Request) {
 	now := tg.w.now()
-	if r.Method == http.MethodGet && r.URL.Path == tg.healthPath && r.Header.Get("User-Agent") == healthCheckUserAgent {
+	if r.Method == http.MethodGet && r.Header.Get("User-Agent") == healthCheckUserAgent {
 		tg.mu.Lock()
 		step := tg.nextProbeStepLocked(true)
 		rec := &vfProbeRec{At: now, Done: -1}
